@@ -40,6 +40,8 @@ type Spec struct {
 	IncludeText bool `json:"include_text"`
 	IncludeMeta bool `json:"include_meta"`
 	Fields    []string `json:"fields,omitempty"`
+	FieldsSet bool     `json:"fields_set,omitempty"` // an include list is given (possibly empty: export no metadata fields)
+	Preexisting int    `json:"preexisting,omitempty"` // tofile: the target already exists and is this many bytes longer than the export
 	TextCol   string `json:"text_col"`
 	IDCol     string `json:"id_col"`
 	Batch     int    `json:"batch"`
@@ -109,6 +111,9 @@ func config(sp *Spec) rag.ExportConfig {
 	c.IncludeText = sp.IncludeText
 	c.IncludeMetadata = sp.IncludeMeta
 	c.MetadataFields = sp.Fields
+	if sp.FieldsSet && c.MetadataFields == nil {
+		c.MetadataFields = []string{}
+	}
 	if sp.TextCol != "" {
 		c.TextColumnName = sp.TextCol
 	}
@@ -136,8 +141,9 @@ func (p *Prop) Generate(base uint64, index int, env *sim.Env) *sim.Case {
 				sp.Fields = append(sp.Fields, f)
 			}
 		}
-		if sp.Fields == nil {
-			sp.Fields = []string{}
+		sp.FieldsSet = true
+		if r.Pct(15) {
+			sp.Fields = nil // an explicit, empty include list: no metadata fields at all
 		}
 	}
 	if r.Pct(25) {
@@ -162,6 +168,9 @@ func (p *Prop) Generate(base uint64, index int, env *sim.Env) *sim.Case {
 			sp.Sink.Kind = "none"
 			c.Mode = "fault-free"
 		}
+	}
+	if sp.Op == "tofile" && r.Pct(50) {
+		sp.Preexisting = 1 + r.Intn(500)
 	}
 	if sp.Op == "pinecone" && r.Pct(30) && sp.N > 0 {
 		sp.MissingEmb = r.Intn(sp.N)
@@ -303,7 +312,7 @@ func checkJSONRecords(sp *Spec, recs []map[string]interface{}, chunks []*rag.Chu
 		if sp.IncludeMeta {
 			meta, _ := rec["metadata"].(map[string]interface{})
 			want := func(field string) bool {
-				if sp.Fields == nil {
+				if !sp.FieldsSet {
 					return true
 				}
 				for _, f := range sp.Fields {
@@ -322,7 +331,7 @@ func checkJSONRecords(sp *Spec, recs []map[string]interface{}, chunks []*rag.Chu
 			if want("document_title") && c.Metadata.DocumentTitle != "" && str(meta["document_title"]) != c.Metadata.DocumentTitle {
 				return fmt.Sprintf("record %d: metadata.document_title %q, chunk %q", i, str(meta["document_title"]), c.Metadata.DocumentTitle)
 			}
-			if sp.Fields != nil {
+			if sp.FieldsSet {
 				for k := range meta {
 					base := k
 					if j := strings.IndexAny(k, "._"); j > 0 && sp.Flatten {
@@ -461,7 +470,7 @@ func anyHas(chunks []*rag.Chunk, key string) bool {
 }
 
 func fieldWanted(sp *Spec, key string) bool {
-	if sp.Fields == nil {
+	if !sp.FieldsSet {
 		return true
 	}
 	for _, f := range sp.Fields {
@@ -622,6 +631,11 @@ func (p *Prop) Execute(c *sim.Case, env *sim.Env) *sim.Result {
 	case "tofile":
 		path := filepath.Join(env.Disk.Dir, "c14-export"+cfg.Format.FileExtension())
 		switch sp.Sink.Kind {
+		case "", "none":
+			if sp.Preexisting > 0 {
+				// the target exists already and is longer than what will be written
+				os.WriteFile(path, bytes.Repeat([]byte("old export line, left over from an earlier run\n"), 1+(len(refOut)+sp.Preexisting)/48), 0o644)
+			}
 		case "devfull":
 			os.Symlink("/dev/full", path)
 		case "badpath":
